@@ -23,6 +23,19 @@ SHAPES = list(SHAPE_LEN)
 _VALID = "all([all_valid_names(t) for t in self.tuning])"
 _D = "(pitch(note) - pitch(open_string(self.tuning[i])))"
 
+# one task per shape; the long shapes (5 and more strings: 2^n paths) are cut further by whether the note is playable on
+# the first two strings (a complete case distinction, so the union is still the whole shape)
+_FF_SPLIT = []
+for _sh in SHAPES:
+    if SHAPE_LEN[_sh] >= 5:
+        _in = lambda i: "(0 <= %s and %s <= maxfret)" % (_D.replace("[i]", "[%d]" % i), _D.replace("[i]", "[%d]" % i))
+        for _a in (True, False):
+            for _b in (True, False):
+                _FF_SPLIT.append({"field_types": {"self.tuning": _sh},
+                                  "assume": "%s%s and %s%s" % ("" if _a else "not ", _in(0), "" if _b else "not ", _in(1))})
+    else:
+        _FF_SPLIT.append({"field_types": {"self.tuning": _sh}})
+
 CONTRACTS[M + "find_frets"] = dict(
     params={"self": "StringTuning", "note": "Note", "maxfret": "int"},
     requires=[("valid-names", _VALID + " and is_name(note.name)")],
@@ -32,7 +45,7 @@ CONTRACTS[M + "find_frets"] = dict(
               "all([(is_None(result[i]) == (not (0 <= %s and %s <= maxfret))) and "
               "((not (0 <= %s and %s <= maxfret)) or result[i] == %s) for i in range(len(self.tuning))])"
               % (_D, _D, _D, _D, _D))],
-    split=[{"field_types": {"self.tuning": sh}} for sh in SHAPES], split_is_domain=True,
+    split=_FF_SPLIT, split_is_domain=True,
     notes="domain: every tuning shape with 1..3 strings (each a single string or a two-string course) plus every shape "
           "that occurs among the 76 registered tunings (3..6 strings, courses of 2 or 3), with ARBITRARY open-string "
           "notes, arbitrary note and maxfret",
